@@ -62,7 +62,9 @@ def clause_props(K, clause, cfg):
     # C09: the bodies of oblivious branches are arbitrary traced operations executed under a guard; "the emitted
     # constraints are satisfied and independent of which branches were taken" is, per operation, the honest-satisfaction
     # and trace-shape facet of its contract in the guarded modes
-    if mode in GUARDED and clause[:2] in ("C.", "T.", "N.") and K.guard_relevant and ("C01" in K.cprops or "C06" in K.tprops):
+    # ... and "ends with the same variable values as the same program with native control flow" is, per operation, its
+    # value and raise facet there: a taken branch computes and refuses exactly what unguarded code does
+    if mode in GUARDED and clause[:2] in ("C.", "T.", "N.", "V.", "R.") and K.guard_relevant and ("C01" in K.cprops or "C06" in K.tprops):
         out = out | {"C09"}
     # C17: "nothing else becomes public" -- the body of a wrapped function is arbitrary traced code, so every operation
     # must allocate exactly the public values its contract counts (none, except val/PubVal)
@@ -86,7 +88,7 @@ def select(prop):
         if K.guard_relevant:
             ps.add("C07")
         if prop == "C09" and prop not in ps and K.guard_relevant and ("C01" in K.cprops or "C06" in K.tprops):
-            out.append((K, "CTN"))
+            out.append((K, "CTNVR"))
             continue
         if prop == "C17" and prop not in ps and "C06" in K.tprops and K.layer == "gadget":
             out.append((K, "N"))
